@@ -180,8 +180,8 @@ structure Inv (cfg : Cfg) (c : Core) : Prop where
   early : (c.headTimer = .active ∨ c.started = false) → c.st = .none ∧ ∀ m ∈ c.messages, isErrorMsg m = true
   notStarted : c.started = false → c.inDecode = false
   /-- the codec's context is the in-flight request's own -/
-  ctxExpect : cfg.upgrade = false → ∀ r, c.st = .expect r → ctxMatches cfg c.ctx r
-  ctxService : cfg.upgrade = false → ∀ r, c.st = .service r → ctxMatches cfg c.ctx r
+  ctxExpect : ∀ r, c.st = .expect r → ctxMatches cfg c.ctx r
+  ctxService : ∀ r, c.st = .service r → ctxMatches cfg c.ctx r
   /-- every queued request carries its own context -/
   ctxQueued : ∀ r ctx, Msg.item r ctx ∈ c.messages → ctxMatches cfg ctx r
 
@@ -300,8 +300,8 @@ theorem inv_sendResponse (cfg : Cfg) (s : DState) (r : Option Nat) (res : RespHe
     subst hsz
     exact ⟨rfl, hmsg⟩
   · intro h; simp only [core, hs, hd] at h ⊢; exact hI.notStarted h
-  · intro _ q h; exact absurd h (hne q).1
-  · intro _ q h; exact absurd h (hne q).2
+  · intro q h; exact absurd h (hne q).1
+  · intro q h; exact absurd h (hne q).2
   · intro q c h; simp only [core, hm] at h; exact hI.ctxQueued q c h
 
 /-! ## every step -/
@@ -440,12 +440,12 @@ theorem step_expectPoll (cfg : Cfg) (s s' : DState) (o : List Out) (res : Expect
         constructor
         · intro hh; exact absurd (by simpa [core] using hh) hne
         · exact hI.notStarted
-        · intro _ q hq; simp [core] at hq
-        · intro hup q hq
+        · intro q hq; simp [core] at hq
+        · intro q hq
           simp only [core] at hq
           have : r = q := by simpa using hq
           subst this
-          exact hI.ctxExpect hup r (by simp [core, hst])
+          exact hI.ctxExpect r (by simp [core, hst])
         · exact hI.ctxQueued
       | err hd size =>
         simp at h; obtain ⟨rfl, rfl⟩ := h
@@ -490,8 +490,8 @@ theorem step_bodyPoll (cfg : Cfg) (s s' : DState) (o : List Out) (res : BodyRes)
             exact absurd (by simpa [core, finishFlags_started] using hh) hne
           · intro hh
             exact hI.notStarted (by simpa [core, finishFlags_started] using hh)
-          · intro _ q hq; simp [core] at hq
-          · intro _ q hq; simp [core] at hq
+          · intro q hq; simp [core] at hq
+          · intro q hq; simp [core] at hq
           · exact hI.ctxQueued
       | err =>
         simp at h; obtain ⟨rfl, rfl⟩ := h
@@ -543,13 +543,13 @@ theorem inv_startRequest {cfg : Cfg} (s : DState) (r : ReqFacts) (hc : ctxMatche
   constructor
   · intro hh; simp only [core, ht, hs] at hh; exact absurd hh hne
   · intro hh; simp only [core, hs, hd] at hh ⊢; exact hn hh
-  · intro _ q hq'
+  · intro q hq'
     simp only [core, hctx] at hq' ⊢
     rcases hst with h | h <;> rw [h] at hq'
     · have : r = q := by simpa using hq'
       subst this; exact hc
     · simp at hq'
-  · intro _ q hq'
+  · intro q hq'
     simp only [core, hctx] at hq' ⊢
     rcases hst with h | h <;> rw [h] at hq'
     · simp at hq'
@@ -574,15 +574,13 @@ theorem applyDecoded_goal (cfg : Cfg) (s0 : DState) (d : Decoded) (hI : Inv cfg 
     obtain ⟨ast, amsg, actx, aht, asta, ain⟩ := acceptItem_frame s0 r
     simp only [applyDecoded]
     split
-    · -- queued for the upgrade service: the codec context is overwritten (no save / restore)
-      rename_i hupg
-      simp at hupg
+    · -- queued for the upgrade service with its own context; the codec context is untouched
       refine ⟨rfl, ?_⟩
       constructor
       · intro hh; simp [core, hstarted] at hh
       · intro _; rfl
-      · intro hup; rw [hupg.2] at hup; exact absurd hup (by simp)
-      · intro hup; rw [hupg.2] at hup; exact absurd hup (by simp)
+      · intro q hq; exact hI.ctxExpect q (by simpa [core] using hq)
+      · intro q hq; exact hI.ctxService q (by simpa [core] using hq)
       · intro q ctx hm
         simp only [core] at hm
         rcases List.mem_append.mp hm with hm | hm
@@ -602,8 +600,8 @@ theorem applyDecoded_goal (cfg : Cfg) (s0 : DState) (d : Decoded) (hI : Inv cfg 
         constructor
         · intro hh; simp [core, aht, asta, hstarted] at hh
         · intro hh; simp [core, asta, hstarted] at hh
-        · intro hup q hq; simp only [core, ast, actx] at hq ⊢; exact hI.ctxExpect hup q (by simpa [core] using hq)
-        · intro hup q hq; simp only [core, ast, actx] at hq ⊢; exact hI.ctxService hup q (by simpa [core] using hq)
+        · intro q hq; simp only [core, ast, actx] at hq ⊢; exact hI.ctxExpect q (by simpa [core] using hq)
+        · intro q hq; simp only [core, ast, actx] at hq ⊢; exact hI.ctxService q (by simpa [core] using hq)
         · intro q ctx hm
           simp only [core, amsg] at hm
           rcases List.mem_append.mp hm with hm | hm
@@ -709,8 +707,8 @@ theorem step_pop (cfg : Cfg) (s s' : DState) (o : List Out) (hI : Inv cfg (core 
           · rw [hstn]; exact sendResponse_proto cfg _ none _ _ true none rfl
           · exact (hInv'.early (by simpa [core] using hh)).2
         · -- the connection is handed to the upgrade service
-          rename_i r rest hm
-          have hmem : Msg.upgrade r ∈ s.messages := by rw [hm]; simp
+          rename_i r uctx rest hm
+          have hmem : Msg.upgrade r uctx ∈ s.messages := by rw [hm]; simp
           have hne : ¬ (s.headTimer = .active ∨ s.flags.started = false) := by
             intro hh
             have := (hI.early (by simpa [core] using hh)).2 _ (by simpa [core] using hmem)
@@ -719,8 +717,8 @@ theorem step_pop (cfg : Cfg) (s s' : DState) (o : List Out) (hI : Inv cfg (core 
           constructor
           · intro hh; exact absurd (by simpa [core] using hh) hne
           · exact hI.notStarted
-          · intro _ q hq; simp [core] at hq
-          · intro _ q hq; simp [core] at hq
+          · intro q hq; simp [core] at hq
+          · intro q hq; simp [core] at hq
           · intro q c hq
             exact hI.ctxQueued q c (by simp only [core]; rw [hm]; exact List.mem_cons_of_mem _ (by simpa [core] using hq))
         · exact ⟨rfl, hI⟩
@@ -1010,7 +1008,7 @@ theorem step_heads (cfg : Cfg) (s s' : DState) (e : Event) (o : List Out)
 
 
 /-- every response head on any accepted run was encoded with the context of its own request -/
-theorem run_heads (cfg : Cfg) (hup : cfg.upgrade = false) : ∀ (es : List Event) (s : DState) (outs : List Out),
+theorem run_heads (cfg : Cfg) : ∀ (es : List Event) (s : DState) (outs : List Out),
     runRev cfg es = some (s, outs) →
       ∀ r f, Out.head (some r) f ∈ outs →
         ∃ rq ctx res size, rq.rid = r ∧ ctxMatches cfg ctx rq ∧ f = headFacts ctx res size := by
@@ -1037,8 +1035,8 @@ theorem run_heads (cfg : Cfg) (hup : cfg.upgrade = false) : ∀ (es : List Event
           have hI := (run_inv cfg es s0 outs0 h0).2
           have hc : ctxMatches cfg s0.ctx rq := by
             rcases hst with hst | hst
-            · exact hI.ctxService hup rq (by simpa [core] using hst)
-            · exact hI.ctxExpect hup rq (by simpa [core] using hst)
+            · exact hI.ctxService rq (by simpa [core] using hst)
+            · exact hI.ctxExpect rq (by simpa [core] using hst)
           exact ⟨rq, s0.ctx, res, size, hr, hc, hf⟩
 
 /-! ## after the end -/
